@@ -55,9 +55,9 @@ LEVEL_NOTE = "trusted: vf/models/httpref.py (~250 lines), the kernel loopback, t
 NSHARDS = {"quick": 8, "thorough": 16}
 PEAK_COUNTERS = ("max_rounds_used",)
 TIMEOUT_S = {"quick": 240, "thorough": 1500}
-BUDGET_S = {"quick": 30, "thorough": 420}
+BUDGET_S = {"quick": 25, "thorough": 400}
 REQUIRE = {"responses_judged": 500, "followed_response_self_delimiting_checks": 150, "eof_after_nonpersistent_checks": 100,
-           "stays_open_checks": 100, "clamp_checks": 15, "nolength_on_open_connection_cases": 50, "empty_pieces_scripted": 100}
+           "stays_open_checks": 60, "clamp_checks": 15, "nolength_on_open_connection_cases": 50, "empty_pieces_scripted": 100}
 EXHAUSTIVE = {"quick": "all request sequences of length <= 2 over {1.1, 1.1 close, 1.0, 1.0 keep-alive} x {Content-Length, none} x {burst, serial}",
               "thorough": "all request sequences of length <= 3 over {1.1, 1.1 close, 1.0, 1.0 keep-alive} x {Content-Length, none} x {burst, serial}"}
 
@@ -188,7 +188,7 @@ def cases(tier, seed, shard, nshards):
                     yield {"kind": "enum", "mode": mode, "cuts": [], "reqs": reqs}
                 i += 1
     rng = random.Random(f"{seed}:C18:{shard}")
-    n = (1600 if tier == "quick" else 36000) // nshards
+    n = (1000 if tier == "quick" else 36000) // nshards
     for c in range(n):
         nreq = rng.choice([1, 2, 2, 3, 3, 4, 5, 6])
         reqs = [gen_req(rng, f"R{shard}c{c}q{j}", last=(j == nreq - 1)) for j in range(nreq)]
